@@ -314,14 +314,34 @@ theorem stepFirst_halving {o : Opts K} {ti te : K} {s : LoopState K} {n : ℕ} (
             n * (2 ^ (o.mSub.toNat - (s.subStep + 1)) * 2) := by ring
         omega
 
+theorem clampDt_halving {o : Opts K} {ti te : K} {s : LoopState K} {n : ℕ}
+    (hdyn : o.dyn = false) (hlt : ti < te) (hinv : InvH o ti te s n) :
+    clampDt (fieldConsts ε) o te s = s.dt := by
+  obtain ⟨⟨hn1, hn⟩, hdt, _⟩ := hinv
+  have hpos : 0 < te - ti := sub_pos.mpr hlt
+  have h2pos : (0 : K) < 2 ^ s.subStep := by positivity
+  have hdtpos : 0 < s.dt := by
+    by_contra hc
+    have : s.dt * 2 ^ s.subStep ≤ 0 := mul_nonpos_of_nonpos_of_nonneg (not_lt.mp hc) h2pos.le
+    linarith
+  have hn1' : (1 : K) ≤ (n : K) := by exact_mod_cast hn1
+  have hge : s.dt ≤ te - s.t := by
+    rw [hn]
+    calc s.dt = 1 * s.dt := (one_mul _).symm
+      _ ≤ _ := mul_le_mul_of_nonneg_right hn1' hdtpos.le
+  unfold clampDt
+  simp only [hdyn, Bool.false_eq_true, if_false]
+  rw [if_neg (not_lt.mpr hge)]
+
 theorem stepSecond_halving {o : Opts K} {ti te : K} {s s0 : LoopState K} {n n0 : ℕ}
-    (hdyn : o.dyn = false) (hinv : InvH o ti te s n) (hmu : mu o s n < mu o s0 n0) :
+    (hdyn : o.dyn = false) (hlt : ti < te) (hinv : InvH o ti te s n) (hmu : mu o s n < mu o s0 n0) :
     match stepSecond (fieldConsts ε) o te s with
     | .inl e => ∀ sf, e ≠ .ended sf ∧ e ≠ .exhausted sf
     | .inr (s', true) => s'.t = te
     | .inr (s', false) => ∃ n', InvH o ti te s' n' ∧ mu o s' n' < mu o s0 n0 := by
-  unfold stepSecond clampDt
-  simp only [hdyn, Bool.false_eq_true, if_false]
+  unfold stepSecond
+  rw [clampDt_halving (ε := ε) hdyn hlt hinv]
+  dsimp only
   split_ifs
   · intro sf; exact ⟨(fun h => by cases h), (fun h => by cases h)⟩
   · intro sf; exact ⟨(fun h => by cases h), (fun h => by cases h)⟩
@@ -348,7 +368,7 @@ theorem body_halving {o : Opts K} {ti te : K} {s : LoopState K} {n : ℕ} (r : A
     | true => exact h1
     | false =>
       obtain ⟨n', hinv1, hmu⟩ := h1
-      exact stepSecond_halving (s0 := s) hdyn hinv1 hmu
+      exact stepSecond_halving (s0 := s) hdyn hlt hinv1 hmu
 
 theorem loop_halving {o : Opts K} {ti te : K} (hdyn : o.dyn = false) (hε : 0 < ε) (hlt : ti < te)
     (hbound : tEpsOf (fieldConsts ε) ti te * 2 ^ o.mSub.toNat ≤ te - ti) (script : List (Answer K)) :
